@@ -1157,6 +1157,7 @@ pub fn random_ai_fault(rng: &mut Rng) -> AiReply {
     match rng.below(10) {
         0 => AiReply::Status { code: *rng.pick(&[400u16, 401, 403, 404]), json_body: true },
         1 => AiReply::Status { code: *rng.pick(&[400u16, 401, 404]), json_body: false },
+        2 if rng.chance(1, 3) => AiReply::QuotaExceeded,
         2 => AiReply::InvalidJson,
         3 => AiReply::NoChoices,
         4 => AiReply::NullContent,
@@ -1201,7 +1202,26 @@ fn c19(seed: u64, thorough: bool) -> Scenario {
             let nf = if g.rng.chance(1, 5) { 2 } else { 1 };
             for _ in 0..nf {
                 let t = g.rng.pick(&toks).clone();
-                let f = random_ai_fault(g.rng);
+                let mut f = random_ai_fault(g.rng);
+                if g.rng.chance(1, 5) {
+                    // retryable statuses: turned away `times` times and then answered (with the
+                    // reply the block had, rarely with a fault), or turned away for ever
+                    let code = *g.rng.pick(&[429u16, 429, 500, 502, 503]);
+                    f = match g.rng.below(8) {
+                        0 => AiReply::RetryForever { code },
+                        1 => AiReply::RetryThen { code, times: 1, then: Box::new(f) },
+                        _ => AiReply::RetryThen {
+                            code,
+                            times: *g.rng.pick(&[1u32, 1, 1, 2, 3, 5]),
+                            then: Box::new(g.world.ai.get(&t).cloned().unwrap_or(AiReply::Text("OK".into()))),
+                        },
+                    };
+                    if let AiReply::RetryThen { then, .. } = &f {
+                        if then.uses_retries() {
+                            f = AiReply::RetryForever { code };
+                        }
+                    }
+                }
                 tags.push(format!("fault={}", f.kind_name()));
                 g.world.ai.insert(t, f);
             }
@@ -1389,6 +1409,10 @@ pub fn stats(sc: &Scenario, reports: &[ChildReport]) -> ScenarioStats {
                 }
                 if let Some(q) = e.get("Reply") {
                     reply_order.push(q["token"].as_str().unwrap_or("").to_string());
+                    let kind = q["kind"].as_str().unwrap_or("");
+                    if kind.starts_with("retryable_") {
+                        bump(&mut st.faults_fired, &format!("net:{kind}"));
+                    }
                 }
                 if let Some(q) = e.get("FaultFired") {
                     bump(&mut st.faults_fired, &format!("net:{}", q["kind"].as_str().unwrap_or("?")));
@@ -1401,6 +1425,15 @@ pub fn stats(sc: &Scenario, reports: &[ChildReport]) -> ScenarioStats {
         for (t, reply) in &w.ai {
             if reply_order.contains(t) && reply.is_fault() && !matches!(reply, AiReply::CloseAfter { .. } | AiReply::ResetAfter { .. }) {
                 bump(&mut st.faults_fired, &format!("net:{}", reply.kind_name()));
+            }
+            if let AiReply::RetryThen { times, .. } = reply {
+                // the retries ended and the block got its answer
+                if reply_order.iter().filter(|x| *x == t).count() as u32 > *times {
+                    bump(&mut st.probes, "ai_answer_after_retryable_statuses");
+                }
+            }
+            if matches!(reply, AiReply::RetryForever { .. }) && r.expected_kind == "failed" && rr["virt_ms"].as_u64().unwrap_or(0) >= 780_000 {
+                bump(&mut st.probes, "ai_retries_gave_up_after_about_15_simulated_minutes");
             }
         }
         let file_order: Vec<String> = rr["file_order"]
